@@ -145,7 +145,17 @@ def worker(args):
             agg['inconclusive'].append({'idx': idx, 'reason': 'generator_error',
                                         'trace': traceback.format_exc()[-1500:]})
             continue
+        pre = None
+        if idx % 3 == 1 and os.environ.get('VERIF_NO_PREHISTORY') != '1':
+            try:
+                from vf import ambient
+                pre = ambient.prehistory(idx)
+            except Exception:
+                pre = None
         res = run_one(prop, case)
+        if pre is not None:
+            res['counters']['prehistory.cases'] = res['counters'].get('prehistory.cases', 0) + 1
+            res['counters']['prehistory.steps_done'] = res['counters'].get('prehistory.steps_done', 0) + pre
         merge_case(agg, idx, case, res)
     probe.stop()
     agg['entered'] = sorted(probe.entered)
